@@ -31,6 +31,7 @@ type c12run struct {
 	adv      map[*PeerConn]*advState
 	advOrder []*PeerConn
 	trustedTxs []*wire.MsgTx // relevant transactions the trusted peer vouches for
+	announcedReady []bitcoin.Hash32 // announced by the trusted peer while the node was in sync
 	advTxs     []*wire.MsgTx // relevant transactions only adversaries know
 	announcedByTrusted map[bitcoin.Hash32]bool
 	forged   []*WBlock
@@ -73,7 +74,7 @@ func (r *c12run) adversary(pc *PeerConn) {
 		simrt.Sleep(time.Duration(1+t.Choose(1500)) * time.Millisecond)
 		best := ns.Trusted.Best
 		chain := Chain(best)
-		switch t.Choose(12) {
+		switch t.Choose(13) {
 		case 0: // an unlinked list of headers
 			hm := wire.NewMsgHeaders()
 			for _, h := range []int{best.Height, best.Height - 2, best.Height - 1} {
@@ -104,6 +105,11 @@ func (r *c12run) adversary(pc *PeerConn) {
 			st.sentBad = append(st.sentBad, "headers-empty")
 		case 4, 5: // a transaction body nobody asked for (possibly a double spend of a vouched one)
 			tx := r.advTxs[t.Choose(uint32(len(r.advTxs)))]
+			if t.Bool(1, 3) {
+				// ... or one the trusted peer is going to announce: it knows it already
+				tx = r.trustedTxs[t.Choose(uint32(len(r.trustedTxs)))]
+				r.c.Probe("trusted_tx_pushed_by_untrusted")
+			}
 			send(tx)
 			st.pushedTxs[*tx.TxHash()] = true
 		case 6: // announce
@@ -141,6 +147,12 @@ func (r *c12run) adversary(pc *PeerConn) {
 			hm.AddBlockHeader(&hdr)
 			send(hm)
 			st.sentBad = append(st.sentBad, "block-forged")
+		case 11: // a relevant transaction spending an output index its (known) parent does not have
+			parent := r.trustedTxs[t.Choose(uint32(len(r.trustedTxs)))]
+			bad := ns.TxW.NewTx([]wire.OutPoint{{Hash: *parent.TxHash(), Index: uint32(len(parent.TxOut)) + uint32(t.Choose(2))}}, subKey, 1, 8000+i)
+			delete(ns.TxW.Txs, *bad.TxHash())
+			send(bad)
+			st.sentBad = append(st.sentBad, "tx-spending-missing-output")
 		case 9: // address flood
 			am := wire.NewMsgAddr()
 			for k := 0; k < 200; k++ {
@@ -337,11 +349,16 @@ func runC12(c *Ctx) {
 		simrt.Sleep(time.Duration(500+t.Choose(4000)) * time.Millisecond)
 		for _, tx := range r.trustedTxs {
 			if t.Bool(2, 3) {
+				if pc := ns.Trusted.Live(); pc != nil && ns.Node.VerifState().IsReady() {
+					r.announcedReady = append(r.announcedReady, *tx.TxHash())
+				}
 				ns.Trusted.AnnounceTx(tx)
 			}
 			simrt.Sleep(time.Duration(t.Choose(800)) * time.Millisecond)
 		}
-		simrt.Sleep(20 * time.Second)
+		// an untrusted announcer that never delivers delays the request to the trusted peer until
+		// the request window is over and the trusted connection shows activity again (its ping)
+		simrt.Sleep(50 * time.Second)
 		// one more honest block so that "keeps following the trusted chain" is exercised after
 		// the adversarial traffic
 		cr.apply(chainEvent{kind: "extend", k: 1})
@@ -399,6 +416,29 @@ func (r *c12run) evaluate(converged bool, why string) {
 		}
 		if !r.announcedByTrusted[*hash] {
 			c.Violate("foreign-block", "chain", "block %s at height %d of the node's chain was never on the trusted peer's best chain", shortHash(*hash), h)
+		}
+	}
+	// nothing an untrusted peer sends keeps a transaction the trusted peer announces from the client
+	delivered := map[bitcoin.Hash32]bool{}
+	for _, cb := range ns.Rec.Log {
+		if cb.Kind == "tx" {
+			delivered[*cb.Tx.Tx.TxHash()] = true
+		}
+	}
+	for _, id := range r.announcedReady {
+		c.Probe("trusted_tx_judged")
+		if !delivered[id] && converged {
+			pushedBy := ""
+			for _, pc := range r.advOrder {
+				if r.adv[pc].pushedTxs[id] {
+					pushedBy += fmt.Sprintf(" %s(verified=%v)", pc, r.adv[pc].verified)
+				}
+			}
+			key := "no-untrusted-push"
+			if pushedBy != "" {
+				key = "body-pushed-by-untrusted"
+			}
+			c.Violate("suppressed", key, "relevant transaction %s was announced by the trusted peer while the node was in sync and never reached the handlers; untrusted connections that had pushed its body:%s", shortHash(id), pushedBy)
 		}
 	}
 	forged := map[bitcoin.Hash32]bool{}
